@@ -526,6 +526,90 @@ fn replacement_aliasing_the_same_memory() {
     out::eval(6);
 }
 
+/// WHICH lock a handle takes after it was re-pointed: `a.clone_from(&b)` / `b.clone_into(&mut a)`
+/// make `a` a handle of b's memory - its updaters must exclude b's updaters (and no longer those of
+/// the memory it used to belong to). Probed deterministically (an updater holding the lock through
+/// one handle, another thread asking through the other: it must not get in while the first is
+/// inside) and with a counter derived from the current map under the lock.
+fn lock_identity_after_clone_from() {
+    use std::sync::atomic::{AtomicBool, AtomicU64, Ordering};
+    let mk = |n: u64| -> Map {
+        let regs: Vec<(GuestAddress, usize)> = (0..n).map(|i| (GuestAddress(0x10_0000 * (i + 1)), 0x1000)).collect();
+        Map::from_ranges(&regs).expect("map")
+    };
+    for how in ["clone_from", "clone_into", "clone_from-of-a-clone"] {
+        let m1 = GuestMemoryAtomic::new(mk(1));
+        let m2 = GuestMemoryAtomic::new(mk(2));
+        let mut a = m1.clone();
+        match how {
+            "clone_from" => a.clone_from(&m2),
+            "clone_into" => m2.clone_into(&mut a),
+            _ => {
+                let c = m2.clone();
+                a.clone_from(&c);
+            }
+        }
+        // sanity: a shows m2's map, m1 is untouched
+        if a.memory().num_regions() != 2 || m1.memory().num_regions() != 1 {
+            v("lock-identity/re-pointed-handle-shows-the-wrong-map", jobj! {"how" => how});
+            return;
+        }
+        // (1) probes, both directions
+        for (dir, holder, asker) in [("held-through-the-re-pointed-handle", a.clone(), m2.clone()), ("held-through-the-original-handle", m2.clone(), a.clone())] {
+            let inside = Arc::new(AtomicBool::new(false));
+            let got_in = Arc::new(AtomicBool::new(false));
+            let guard = holder.lock().unwrap();
+            inside.store(true, Ordering::SeqCst);
+            let (i2, g2) = (inside.clone(), got_in.clone());
+            let th = std::thread::spawn(move || {
+                let _g = asker.lock().unwrap();
+                // we are inside the update lock now: was the first updater still inside?
+                if i2.load(Ordering::SeqCst) {
+                    g2.store(true, Ordering::SeqCst);
+                }
+            });
+            std::thread::sleep(std::time::Duration::from_millis(if cfg!(miri) { 1 } else { 60 }));
+            inside.store(false, Ordering::SeqCst);
+            drop(guard);
+            let _ = th.join();
+            if got_in.load(Ordering::SeqCst) {
+                v("lock-identity/two-updaters-of-one-memory-inside-the-lock", jobj! {"how" => how, "direction" => dir});
+                return;
+            }
+        }
+        // (2) counter: every update installs a map with one region more than the current one
+        if !cfg!(miri) {
+            let per = 150u64;
+            let done = Arc::new(AtomicU64::new(0));
+            let hs: Vec<_> = [a.clone(), m2.clone(), a.clone(), m2.clone()]
+                .into_iter()
+                .map(|h| {
+                    let done = done.clone();
+                    std::thread::spawn(move || {
+                        for _ in 0..per {
+                            let g = h.lock().unwrap();
+                            let cur = h.memory().num_regions() as u64;
+                            let regs: Vec<(GuestAddress, usize)> = (0..cur + 1).map(|i| (GuestAddress(0x1000 * (i + 1)), 0x1000)).collect();
+                            g.replace(Map::from_ranges(&regs).expect("map"));
+                            done.fetch_add(1, Ordering::Relaxed);
+                        }
+                    })
+                })
+                .collect();
+            for h in hs {
+                let _ = h.join();
+            }
+            let fin = m2.memory().num_regions() as u64;
+            if fin != 2 + 4 * per {
+                v("lock-identity/lost-replacement", jobj! {"how" => how, "completed_replacements" => done.load(Ordering::Relaxed), "final_generation" => fin, "expected" => 2 + 4 * per});
+                return;
+            }
+        }
+        out::key(&format!("lock-identity|{}", how), true);
+        out::eval(1);
+    }
+}
+
 /// Very long update histories on one replaceable memory (counters wrap at 2^16): after EVERY one
 /// of 2^16 + 2^15 completed replacements the next snapshot shows the map just installed (the maps
 /// alternate between two and three regions, so a single skipped or stale publication is visible).
@@ -591,6 +675,9 @@ pub fn run(args: &Args) {
             if let Err(p) = guarded(replacement_aliasing_the_same_memory) {
                 v(&format!("panic/alias/{}", panic_sig(&p)), J::s(p));
             }
+        }
+        if let Err(p) = guarded(lock_identity_after_clone_from) {
+            v(&format!("panic/lock-identity/{}", panic_sig(&p)), J::s(p));
         }
         if !cfg!(miri) {
             if let Err(p) = guarded(long_update_history) {
